@@ -25,6 +25,18 @@ CHECKS = {
     "C54": dict(level="proof", technique=PROOF_TECH, design="DESIGN.md §5 C54",
                 text="every OrderedSet method and operator, unique_list and IdentitySet (IdentitySet operand) is proved from the pure-Python source against 'set semantics with first-insertion order' (views via the spec functions addall/filt), representation invariants and frames included; the two known defects are reported as KNOWN-FINDING with every input outside their class proved. Bounded complement: pure and compiled builds against reference models.",
                 note="argument kinds are a case split (list with duplicates / set / IdentitySet); inductive lemmas filt_cong, addall_cat, filt_snoc assumed (Lean status in lemmas/); immutabledict/LRUCache/merge_lists_w_ordering are bounded only; the .so cannot be rebuilt here"),
+    "C24": dict(level="proof", technique=PROOF_TECH, design="DESIGN.md §5 C24",
+                text="the reset path is proved: _ConnectionFairy._reset leaves no open transaction for reset_on_return rollback/commit (or was told, under a call-site precondition, that the transaction is already reset) and DefaultDialect.reset_isolation_level restores the engine-wide level; ghost txn_open / iso_level per DBAPI connection. Bounded complement: all pool histories on a fake DBAPI.",
+                note="assumed driver contracts (do_rollback/do_commit/_assert_and_set_isolation_level); _finalize_fairy, checkin and Connection.close only in the bounded complement; server-side state outside"),
+    "C28": dict(level="proof", technique=PROOF_TECH, design="DESIGN.md §5 C28",
+                text="_ClsLevelDispatch.update_subclass is proved for any MRO and any prior registry state: afterwards the target's collection holds, after what it held, every listener of every ancestor that has a collection, nothing else, and every other class's collection is untouched (loop invariant over the MRO). Bounded complement: listen/remove/dispatch histories against a ghost registry.",
+                note="other listener containers (_ListenerCollection, _EventKey, registry, exec_once) are bounded only; WeakKeyDictionary modelled as dict"),
+    "C36": dict(level="proof", technique=PROOF_TECH, design="DESIGN.md §5 C36",
+                text="History.from_scalar_attribute and from_object_attribute are proved against the documented conventions for every combination of committed value / current value / sentinels (all paths). Bounded complement: mutation sequences on mapped attributes incl. flush.",
+                note="is_equal pure; from_collection, the attribute impls and _modified_event are bounded only"),
+    "C38": dict(level="proof", technique=PROOF_TECH, design="DESIGN.md §5 C38",
+                text="the instrumented list operations with an integer index (append, insert, remove, __setitem__, __delitem__, pop) are proved to produce list's contents, return value and exception and exactly the right ghost event log, for lists of any length; remove(absent) firing an event is a KNOWN-FINDING. Bounded complement: all list/set/dict operations incl. slices side by side with the builtins.",
+                note="assumed contracts on the event helpers __set/__del; slices, extend, clear, set and dict decorators bounded only"),
     "C35": dict(level="proof", technique=PROOF_TECH, design="DESIGN.md §5 C35",
                 text="the five InstanceState lifecycle predicates are proved equal to their documented definitions over (key is None, _attached, _deleted) and the partition (exactly one holds) is a full-domain lemma over those postconditions; native replay on all 8 valuations.",
                 note="transitions and events are not under contract here; `_attached` is read as a boolean attribute"),
@@ -76,15 +88,15 @@ CHECKS.update({
              "assumed DBAPI cursor contract; cursor.fetchmany(0) is driver-defined and excluded", "DESIGN.md §5 C10"),
     "C21": B("run-time contract on _truncated_identifier / _truncate_and_render_maxlen_name / truncate_and_render_index+constraint_name: rendered length <= the dialect's limit for that kind of name, deterministic across compilations, unique within a statement; 7 dialect families x max_identifier_length values x 11 naming templates x name lengths around each limit. Bounded exploration.",
              "md5 and %-templating are CPython's", "DESIGN.md §5 C21"),
-    "C24": B("postcondition of Pool.connect() on a fake DBAPI with a ghost ledger: a handed-out connection has no open transaction and default isolation/autocommit unless reset_on_return=None; all histories <= 4 (quick) / 5 (thorough) x 4 pool classes x 3 reset_on_return settings. Bounded exploration.",
+    "_C24_bounded_only": B("postcondition of Pool.connect() on a fake DBAPI with a ghost ledger: a handed-out connection has no open transaction and default isolation/autocommit unless reset_on_return=None; all histories <= 4 (quick) / 5 (thorough) x 4 pool classes x 3 reset_on_return settings. Bounded exploration.",
              "server-side session state on real backends and GC timing are outside", "DESIGN.md §5 C24", level="fault_enumeration"),
     "C26": B("fault enumeration on a fake DBAPI: every pool history <= 5 (quick) / 6 (thorough) x a fault at every DBAPI call position (two faults for short histories) x 11 pool configurations; after all holders released: checkedout()==0, every ledger-open connection idle in the pool, nothing closed handed out, nothing predating an invalidation.",
              "weakref/GC timing; StaticPool/SingletonThreadPool with one holder only", "DESIGN.md §5 C26", level="fault_enumeration"),
-    "C28": B("ghost registry of listen/remove (insert/propagate/once/named) on a 3-class hierarchy with a late subclass and 2 instances; invocation sequence on dispatch == registry model, each once; all histories <= 3 (quick) / 4 (thorough) over 75 operations. Bounded exploration.",
+    "_C28_bounded_only": B("ghost registry of listen/remove (insert/propagate/once/named) on a 3-class hierarchy with a late subclass and 2 instances; invocation sequence on dispatch == registry model, each once; all histories <= 3 (quick) / 4 (thorough) over 75 operations. Bounded exploration.",
              "concurrent exec-once and weakref clean-up of the registry not decided", "DESIGN.md §5 C28"),
-    "C36": B("History contract (documented conventions) evaluated after every mutation sequence <= 3 (quick) / 4 (thorough) on scalar / many-to-one / list / set / dict attributes x persistent / expired / transient, then flush. Bounded exploration.",
+    "_C36_bounded_only": B("History contract (documented conventions) evaluated after every mutation sequence <= 3 (quick) / 4 (thorough) on scalar / many-to-one / list / set / dict attributes x persistent / expired / transient, then flush. Bounded exploration.",
              "the database round trip uses SQLite", "DESIGN.md §5 C36"),
-    "C38": B("InstrumentedList/Set and KeyFuncDict vs the builtin executed side by side (contents, return value, exception type, exactly the right append/remove events): every index and slice (bounds -5..5, steps -3..3), every method and operator x operand catalogue. Bounded exploration; proof kernel for the list index/slice arithmetic planned.",
+    "_C38_bounded_only": B("InstrumentedList/Set and KeyFuncDict vs the builtin executed side by side (contents, return value, exception type, exactly the right append/remove events): every index and slice (bounds -5..5, steps -3..3), every method and operator x operand catalogue. Bounded exploration; proof kernel for the list index/slice arithmetic planned.",
              "events compared as multisets; user __eq__ not modelled", "DESIGN.md §5 C38"),
     "C50": B("OrderingList representation invariant position(self[i]) == ordering_func(i) after every operation sequence <= 3 (quick) / 4 (thorough) over 21 operations (bound and un-instrumented class), association proxies vs list/set/dict models, flush + reload. Bounded exploration.",
              "SQLite for the persisted order", "DESIGN.md §5 C50"),
@@ -114,6 +126,8 @@ NOT_BUILT = "check not built yet in this round (planned in DESIGN §5/§8); not 
 def main():
     props = [json.loads(l)["id"] for l in open(os.path.join(ROOT, "properties.jsonl"))]
     checks = []
+    for k in [k for k in CHECKS if k.startswith("_")]:
+        del CHECKS[k]
     for pid in props:
         if pid in CHECKS:
             c = CHECKS[pid]
